@@ -531,9 +531,126 @@ def analyse_exception_discipline(src):
     return problems
 
 
+EXPR = "mwlib/parser/expr.py"
+# operator of #expr/#ifexpr -> the callable registered for it by addop (text of the expression, ast.unparse).  This is the
+# cost-relevant pin: every one of these works in time/space proportional to the size of its operands and, applied to machine
+# floats, returns a machine float or raises (math.pow: OverflowError "math range error" at once) - in particular `^` never
+# builds an exact integer power, whose size would be MULTIPLIED by the exponent at every link of a chain 9^64^64^64^64.
+# A different callable (a helper, another lambda body, functools.partial, ...) is not "wrong" by itself, but its cost has
+# not been reviewed: the translator fails closed and names the operator.
+EXPR_IMPL_PINNED = {
+    "UMinus": "lambda x: -x", "UPlus": "lambda x: x",
+    "^": "math.pow",
+    "not": "lambda x: int(not bool(x))", "abs": "abs",
+    "sin": "math.sin", "cos": "math.cos", "asin": "math.asin", "acos": "math.acos", "tan": "math.tan", "atan": "math.atan",
+    "exp": "math.exp", "ln": "math.log",
+    "ceil": "lambda x: int(math.ceil(x))", "floor": "lambda x: int(math.floor(x))", "trunc": "int",
+    "e": "lambda x, y: x * math.pow(10, y)", "E": "lambda x, y: x * math.pow(10, y)",
+    "*": "lambda x, y: x * y", "/": "lambda x, y: x / y", "div": "lambda x, y: x / y", "mod": "lambda x, y: int(x) % int(y)",
+    "+": "lambda x, y: x + y", "-": "lambda x, y: x - y",
+    "round": "_myround",
+    "<": "lambda x, y: int(x < y)", ">": "lambda x, y: int(x > y)", "<=": "lambda x, y: int(x <= y)",
+    ">=": "lambda x, y: int(x >= y)", "!=": "lambda x, y: int(x != y)", "<>": "lambda x, y: int(x != y)",
+    "=": "lambda x, y: int(x == y)",
+    "and": "lambda x, y: int(bool(x) and bool(y))", "or": "lambda x, y: int(bool(x) or bool(y))",
+}
+# sha256 of the AST of the only registered callable that is defined in expr.py itself
+EXPR_MYROUND_SHA = ("b4a189197f1beec1cc4af0837b523ac722c94dcdfcf2431ed5380a1156df3048",
+                    "bcc5866f3a1e881d93b2738f11e173e7354574fd334557d730d7cfcb625d32b9")
+
+
+def analyse_expr_impl(src):
+    """expr.py: the callable behind every operator of #expr is the pinned one.  Reads the registration block between
+    `a = addop` and `del a` (every statement must be a call a(<operator>, <prec>, <callable>[, <numargs>])), requires `math` to be
+    the stdlib module imported at top level and never rebound, `addop` to store the callable it is given (its AST is pinned by
+    hash), and no other write to `functions`.  -> (table {operator: text}, [problems]) ; empty problems = pinned"""
+    import hashlib
+    path = os.path.join(src, EXPR)
+    tree = ast.parse(open(path, encoding="utf8").read(), path)
+    top = tree.body
+    problems = []
+    table = {}
+    idx = [i for i, n in enumerate(top) if isinstance(n, ast.Assign) and ast.unparse(n) == "a = addop"]
+    if len(idx) != 1:
+        return table, ["%s: expected exactly one `a = addop`" % EXPR]
+    i = idx[0] + 1
+    closed = False
+    while i < len(top):
+        n = top[i]
+        i += 1
+        if isinstance(n, ast.Delete) and ast.unparse(n) == "del a":
+            closed = True
+            break
+        if not (isinstance(n, ast.Expr) and isinstance(n.value, ast.Call) and isinstance(n.value.func, ast.Name)
+                and n.value.func.id == "a" and not n.value.keywords and len(n.value.args) in (3, 4)):
+            problems.append("%s:%d: unexpected statement in the operator table: %s" % (EXPR, n.lineno, ast.unparse(n)[:80]))
+            continue
+        op = n.value.args[0]
+        if isinstance(op, ast.Constant) and isinstance(op.value, str):
+            sym = op.value
+        elif isinstance(op, ast.Name) and op.id in ("UMinus", "UPlus"):
+            sym = op.id
+        else:
+            problems.append("%s:%d: operator is not a string literal / UMinus / UPlus" % (EXPR, n.lineno))
+            continue
+        ftxt = ast.unparse(n.value.args[2])
+        if sym in table:
+            problems.append("%s:%d: operator %r registered twice" % (EXPR, n.lineno, sym))
+        table[sym] = ftxt
+        want = EXPR_IMPL_PINNED.get(sym)
+        if want is None:
+            problems.append("%s:%d: new operator %r implemented by %s: cost not reviewed" % (EXPR, n.lineno, sym, ftxt))
+        elif ftxt != want:
+            problems.append("%s:%d: operator %r is implemented by `%s`, pinned implementation is `%s` (cost of the new callable "
+                            "not reviewed: e.g. an exact integer power makes 9^64^64^64^64 astronomically large)"
+                            % (EXPR, n.lineno, sym, ftxt, want))
+    if not closed:
+        problems.append("%s: `del a` not found after the operator table" % EXPR)
+    for sym in EXPR_IMPL_PINNED:
+        if sym not in table:
+            problems.append("%s: operator %r is no longer registered" % (EXPR, sym))
+    # `math` is the stdlib module, bound once by `import math`
+    imports = [n for n in ast.walk(tree) if isinstance(n, ast.Import) and any(al.name == "math" for al in n.names)]
+    if len(imports) != 1 or imports[0] not in top or any(al.asname for al in imports[0].names if al.name == "math"):
+        problems.append("%s: `import math` at module level (exactly once, no alias) expected" % EXPR)
+    for n in ast.walk(tree):
+        if isinstance(n, ast.Name) and n.id in ("math", "abs", "int", "round", "bool", "addop") and not isinstance(n.ctx, ast.Load):
+            problems.append("%s:%d: name %r rebound" % (EXPR, n.lineno, n.id))
+        if isinstance(n, ast.ImportFrom) and any((al.asname or al.name) in ("math", "abs", "int", "round", "bool") for al in n.names):
+            problems.append("%s:%d: from-import rebinds a pinned name" % (EXPR, n.lineno))
+        if isinstance(n, (ast.FunctionDef, ast.ClassDef)) and n.name in ("math", "abs", "int", "round", "bool"):
+            problems.append("%s:%d: def/class %s shadows a pinned name" % (EXPR, n.lineno, n.name))
+        if isinstance(n, ast.arg) and n.arg in ("math",):
+            problems.append("%s:%d: parameter named math" % (EXPR, n.lineno))
+    defs = {n.name: n for n in top if isinstance(n, ast.FunctionDef)}
+    for name, want in (("_myround", EXPR_MYROUND_SHA),
+                       ("addop", ("68f8ac4c2e0af38bcaf9bb103f923486ef9c1948a47c59193b76a8ccc12390fd",))):
+        if name not in defs:
+            problems.append("%s: def %s missing" % (EXPR, name))
+            continue
+        got = hashlib.sha256(_dump(defs[name]).encode()).hexdigest()
+        if got not in want:
+            problems.append("%s:%d: def %s changed (sha256 of its AST %s): review its cost" % (EXPR, defs[name].lineno, name, got))
+    # no write to the dispatch dict outside addop
+    for tn in top:
+        if tn is defs.get("addop"):
+            continue
+        for n in ast.walk(tn):
+            if isinstance(n, ast.Subscript) and not isinstance(n.ctx, ast.Load) and isinstance(n.value, ast.Name) and n.value.id == "functions":
+                problems.append("%s:%d: `functions` written outside addop" % (EXPR, n.lineno))
+            if (isinstance(n, ast.Attribute) and isinstance(n.value, ast.Name) and n.value.id == "functions"
+                    and n.attr in ("update", "setdefault", "pop", "clear", "__setitem__")):
+                problems.append("%s:%d: functions.%s outside addop" % (EXPR, n.lineno, n.attr))
+    return table, problems
+
+
 def analyse(src):
     res = analyse_magics(src)
     res["discipline"] = analyse_exception_discipline(src)
+    try:
+        res["expr_impl"], res["expr_impl_problems"] = analyse_expr_impl(src)
+    except (OSError, SyntaxError) as e:
+        res["expr_impl"], res["expr_impl_problems"] = {}, ["%s: %s" % (EXPR, e)]
     res["registry"] = analyse_registry(src)
     try:
         res["pads"] = analyse_pads(src)
@@ -588,6 +705,13 @@ def render(info):
     L.append("   inside a try statement and no magic fetches an argument inside `try .. except Exception`: number of violations *)")
     L.append("Definition gen_discipline_violations : nat := %d." % len(info["discipline"]))
     L.append("")
+    L.append("(* #expr operator table (vt/gen/c03_magics.py analyse_expr_impl): operator -> registered callable, each equal to the pinned")
+    L.append("   one (`^` -> math.pow, ...); number of operators whose callable is not the pinned one *)")
+    for sym in sorted(info["expr_impl"]):
+        L.append("(*   %-7s %s *)" % (sym.replace("*", "(times)"), info["expr_impl"][sym].replace("*", "(times)")))
+    L.append("Definition gen_expr_operators : nat := %d." % len(info["expr_impl"]))
+    L.append("Definition gen_expr_impl_violations : nat := %d." % len(info["expr_impl_problems"]))
+    L.append("")
     L.append("Definition dummy_names : list str := [%s]." % "; ".join(core.coq_str(n) for n in info["dummies"]))
     L.append("")
     L.append("Definition magic_registry : list regentry := [")
@@ -605,6 +729,8 @@ def generate(src):
     info = analyse(src)
     if "error" in info["pads"]:
         raise Unsupported(info["pads"]["error"])
+    if info["expr_impl_problems"]:
+        raise Unsupported("#expr operator implementations not pinned: " + " || ".join(info["expr_impl_problems"][:4]))
     if info["discipline"]:
         raise Unsupported("exception-propagation discipline of magic calls broken: " + " || ".join(info["discipline"][:4]))
     core.write_if_changed(os.path.join(core.COQ, "C03", "Gen_magics.v"), render(info))
